@@ -265,10 +265,840 @@ def nontrivial_C13(text):
     return text.split()[0] in ('SupUnion', 'SupInter', 'SupEq', 'SupRel', 'SupIvl', 'SupAbs', 'SupAt', 'SupIter')
 
 
+
+# ---------------------------------------------------------------------------
+# C02 — evaluation
+# ---------------------------------------------------------------------------
+def eval_points(pts, w):
+    xs = set()
+    for i, p in enumerate(pts):
+        xs.add(p)
+        if i + 1 < len(pts):
+            xs.add((p + pts[i + 1]) / 2)
+            xs.add(p + (pts[i + 1] - p) / 3)
+    for e in ([pts[w[0]], pts[w[1] - 1]] if w != (0, 0) else []):
+        xs.add(e - Fr(1, 1000))
+        xs.add(e + Fr(1, 1000))
+    xs.add(pts[0] - 50)
+    xs.add(pts[-1] + 50)
+    return sorted(xs)
+
+
+def gen_C02(seed, tier):
+    rng = random.Random(seed)
+    cases = []
+    sizes = [2, 3, 5] if tier == 'quick' else [2, 3, 4, 5, 6]
+    orders = [0, 1, 2] if tier == 'quick' else [0, 1, 2, 3]
+    for n in sizes:
+        pts = grid_points(rng, n)
+        for o in orders:
+            c = Case(f"C02_{n}_{o}")
+            c.grid_new(0, pts)
+            for wi, w in enumerate(windows(n)):
+                d = 10 + wi
+                # discontinuous pieces on purpose: the choice of piece is visible
+                c.sup_new(d + 1000, 0, w[0], w[1])
+                c.spl_new(d, o, d + 1000, [[Fr(10 * (j + 1) + i) for i in range(o + 1)] for j in range(nint(w))])
+                c.spl_front(d)
+                c.spl_back(d)
+                for x in eval_points(pts, w):
+                    c.spl_eval(d, x)
+            cases.append(c)
+    # random larger grids, random coefficients
+    for r in range(6 if tier == 'quick' else 30):
+        n = rng.randint(4, 9)
+        pts = grid_points(rng, n)
+        o = rng.randint(0, 4)
+        c = Case(f"C02r{r}")
+        c.grid_new(0, pts)
+        w = mk_spline(c, rng, 1, 0, n, o)
+        for x in eval_points(pts, w):
+            c.spl_eval(1, x)
+        c.spl_front(1)
+        c.spl_back(1)
+        cases.append(c)
+    return cases
+
+
+# ---------------------------------------------------------------------------
+# C03 — spline arithmetic
+# ---------------------------------------------------------------------------
+def gen_C03(seed, tier):
+    rng = random.Random(seed)
+    cases = []
+    n = 5 if tier == 'quick' else 6
+    pts = grid_points(rng, n)
+    ws = windows(n)
+    allpairs = [(a, b) for a in range(4) for b in range(4)]
+    opairs = rng.sample(allpairs, 3) if tier == 'quick' else allpairs
+    for (oa, ob) in opairs:
+        for ai, wa in enumerate(ws):
+            c = Case(f"C03_{oa}{ob}_{ai}")
+            c.grid_new(0, pts)
+            c.grid_new(1, pts)        # equal points, distinct object
+            c.sup_new(1000, 0, wa[0], wa[1])
+            c.spl_new(2, oa, 1000, rand_coefs(rng, oa, nint(wa)))
+            for bi, wb in enumerate(ws):
+                c.sup_new(1001, 1 if bi % 2 else 0, wb[0], wb[1])
+                c.spl_new(3, ob, 1001, rand_coefs(rng, ob, nint(wb), zero_prob=0.1))
+                c.spl_add(4, 2, 3)
+                c.show(4)
+                c.spl_sub(5, 2, 3)
+                c.show(5)
+                c.spl_mul(6, 2, 3)
+                c.show(6)
+                if ob <= oa:
+                    c.spl_copy(7, 2)
+                    c.spl_iadd(7, 3)
+                    c.show(7)
+                    c.spl_isub(7, 3)
+                    c.spl_isub(7, 3)
+                    c.show(7)
+                c.meta.setdefault('placements', []).append(placement(wa, wb))
+            cases.append(c)
+    # scalar forms, negation, division, cross-order assignment, in-place chains, linearCombination
+    for r in range(12 if tier == 'quick' else 60):
+        c = Case(f"C03s{r}")
+        m = rng.randint(3, 8)
+        g = grid_points(rng, m)
+        c.grid_new(0, g)
+        o = rng.randint(0, 3)
+        w = mk_spline(c, rng, 1, 0, m, o)
+        sc = rand_scalar(rng)
+        c.spl_scale(2, 1, sc); c.show(2)
+        c.spl_scale_l(3, sc, 1); c.show(3)
+        c.spl_div(4, 1, rand_scalar(rng)); c.show(4)
+        c.spl_neg(5, 1); c.show(5)
+        c.spl_copy(6, 1)
+        c.spl_imul(6, rand_scalar(rng, nonzero=False)); c.show(6)
+        c.spl_idiv(6, rand_scalar(rng)); c.show(6)
+        # cross-order assignment into a higher-order object
+        ho = o + rng.randint(1, 2)
+        mk_spline(c, rng, 7, 0, m, ho, supslot=1007)
+        c.spl_assign_up(7, 1); c.show(7)
+        # a chain of in-place updates applied to one object
+        c.spl_copy(8, 7)
+        for _ in range(rng.randint(2, 6)):
+            k = rng.random()
+            src = 20 + rng.randint(0, 2)
+            if src not in c.kind:
+                mk_spline(c, rng, src, 0, m, rng.randint(0, ho), supslot=1000 + src)
+            if k < 0.4:
+                c.spl_iadd(8, src)
+            elif k < 0.7:
+                c.spl_isub(8, src)
+            elif k < 0.85:
+                c.spl_imul(8, rand_scalar(rng, nonzero=False))
+            else:
+                c.spl_idiv(8, rand_scalar(rng))
+            c.show(8)
+        # linearCombination over 1..6 splines with differing windows
+        k = rng.randint(1, 6)
+        ss = []
+        for j in range(k):
+            mk_spline(c, rng, 40 + j, 0, m, o, supslot=1040 + j, zero_prob=0.1)
+            ss.append(40 + j)
+        c.spl_lincomb(60, [rand_scalar(rng, nonzero=False) for _ in range(k)], ss)
+        c.show(60)
+        cases.append(c)
+    return cases
+
+
+def nontrivial_C03(t):
+    return t.split()[0] in ('SplAdd', 'SplSub', 'SplMul', 'SplIAdd', 'SplISub', 'SplLinComb', 'SplScale', 'SplScaleL',
+                            'SplDiv', 'SplNeg', 'SplIMul', 'SplIDiv', 'SplAssignUp') or t.startswith('SplNew')
+
+
+# ---------------------------------------------------------------------------
+# C04 — primitive operators
+# ---------------------------------------------------------------------------
+def gen_C04(seed, tier):
+    rng = random.Random(seed)
+    cases = []
+    orders = [0, 1, 2, 3] if tier == 'quick' else [0, 1, 2, 3, 4]
+    maxpos = 3 if tier == 'quick' else 4
+    for fam in ['unit', 'irregular', 'off+', 'off-']:
+        for o in orders:
+            tag = fam.replace('+', 'p').replace('-', 'm')
+            c = Case(f"C04_{tag}_{o}")
+            n = 5
+            pts = grid_points(rng, n, fam)
+            c.grid_new(0, pts)
+            for wi, w in enumerate([(0, n), (1, 4), (2, 4), (0, 0), (3, 4)]):
+                src = 10 + wi
+                mk_spline(c, rng, src, 0, n, o, w=w, supslot=1000 + src)
+                c.apply(100 + o, E('Id'), src); c.show(100 + o); c.spl_eq(100 + o, src)
+                for k in range(0, o + 3):
+                    d = 200 + k            # result order max(k,o)-k: one slot per k
+                    c.apply(d, E('Der', k), src); c.show(d)
+                for k in range(0, maxpos + 1):
+                    d = 300 + k
+                    c.apply(d, E('Pos', k), src); c.show(d)
+            # the per-interval transform directly, on every interval of the grid
+            coefs = [rand_coef(rng) for _ in range(o + 1)]
+            for k in range(n - 1):
+                c.transform(E('Der', min(o, 1)), coefs, 0, k)
+                c.transform(E('Pos', 2), coefs, 0, k)
+                c.transform(E('Id'), coefs, 0, k)
+            cases.append(c)
+    return cases
+
+
+def nontrivial_C04(t):
+    return t.split()[0] in ('Apply', 'Transform')
+
+
+# ---------------------------------------------------------------------------
+# C05 — operator expressions
+# ---------------------------------------------------------------------------
+def gen_C05(seed, tier):
+    rng = random.Random(seed)
+    cases = []
+    n = 5
+    pts = grid_points(rng, n, 'irregular')
+    ws = windows(n)
+    orders = [0, 2] if tier == 'quick' else [0, 1, 2, 3]
+    # (a) catalogue without spline factors x operand orders x a few operand windows
+    cat = catalogue(None)
+    extra = [rand_expr(rng, 3) for _ in range(10 if tier == 'quick' else 120)]
+    exprs = cat + extra
+    for o in orders:
+        for ci in range(0, len(exprs), 6):
+            c = Case(f"C05a_{o}_{ci}")
+            c.grid_new(0, pts)
+            opnds = []
+            for wi, w in enumerate([(0, n), (1, 3), (0, 0), (2, 3)]):
+                mk_spline(c, rng, 10 + wi, 0, n, o, w=w, supslot=1010 + wi)
+                opnds.append(10 + wi)
+            for ei, e in enumerate(exprs[ci:ci + 6]):
+                if e.out_ord(o, c.order) > 10:
+                    continue
+                for a in opnds:
+                    c.apply(100 + ei, e, a); c.show(100 + ei)
+            cases.append(c)
+    # (b) spline-factor expressions: every placement of factor window vs operand window
+    fo, oo = (1, 1) if tier == 'quick' else (2, 1)
+    fcat = catalogue(50)[len(cat):]
+    for wi, wv in enumerate(ws):
+        c = Case(f"C05b_{wi}")
+        c.grid_new(0, pts)
+        c.grid_new(1, pts)
+        c.sup_new(1050, 1, wv[0], wv[1])
+        c.spl_new(50, fo, 1050, rand_coefs(rng, fo, nint(wv)))
+        for wj, wa in enumerate(ws):
+            c.sup_new(1060, 0, wa[0], wa[1])
+            c.spl_new(60, oo, 1060, rand_coefs(rng, oo, nint(wa)))
+            for ei, e in enumerate(fcat if tier != 'quick' else [fcat[0], fcat[(wi + wj) % len(fcat)]]):
+                c.apply(100 + fcat.index(e), e, 60); c.show(100 + fcat.index(e))
+        cases.append(c)
+    return cases
+
+
+def nontrivial_C05(t):
+    return t.split()[0] == 'Apply'
+
+
+# ---------------------------------------------------------------------------
+# C06 / C07 — forms
+# ---------------------------------------------------------------------------
+def form_exprs(spl=None):
+    X1, D1, D2, I = E('Pos', 1), E('Der', 1), E('Der', 2), E('Id')
+    l = [I, D1, X1, D2, E('Pos', 2), E('Mul', X1, D1), E('SMulL', Sc('F', Fr(-1, 2)), D2),
+         E('Add', E('SMulL', Sc('F', Fr(-1, 2)), D2), E('SMulL', Sc('F', Fr(1, 2)), E('Pos', 2))),
+         E('DivS', E('SubS', X1, Sc('I', 1)), Sc('I', 2)), E('Neg', E('Der', 3))]
+    if spl is not None:
+        l += [E('Spl', spl), E('Mul', E('Spl', spl), D1)]
+    return l
+
+
+def gen_C06(seed, tier, linear=False):
+    rng = random.Random(seed)
+    cases = []
+    n = 5
+    pts = grid_points(rng, n, rng.choice(['irregular', 'off+', 'tiny']))
+    ws = windows(n)
+    opairs = [(0, 0), (1, 2), (3, 1)] if tier == 'quick' else [(a, b) for a in range(4) for b in range(4)]
+    exprs = form_exprs(70)
+    for (oa, ob) in opairs:
+        for ai, wa in enumerate(ws):
+            c = Case(f"{'C07' if linear else 'C06'}_{oa}{ob}_{ai}")
+            c.grid_new(0, pts)
+            c.grid_new(1, pts)
+            c.sup_new(1070, 0, 1, 4)
+            c.spl_new(70, 1, 1070, rand_coefs(rng, 1, 2))
+            c.sup_new(1002, 0, wa[0], wa[1])
+            c.spl_new(2, oa, 1002, rand_coefs(rng, oa, nint(wa)))
+            if linear:
+                for e in exprs:
+                    c.lin(e, 2)
+            for bi, wb in enumerate(ws):
+                c.sup_new(1003, 1 if bi % 2 else 0, wb[0], wb[1])
+                c.spl_new(3, ob, 1003, rand_coefs(rng, ob, nint(wb)))
+                k = (ai + bi) % len(exprs)
+                e1, e2 = exprs[k], exprs[(k * 3 + 1) % len(exprs)]
+                c.bilin(e1, e2, 2, 3)
+                c.bilin(e2, e1, 3, 2)                     # swapped pairs
+                c.bilin(E('Id'), E('Id'), 2, 3)           # scalar product
+                if linear:
+                    # bilinear form = identity linear form of the product spline
+                    o1 = e1.out_ord(oa, c.order)
+                    o2 = e2.out_ord(ob, c.order)
+                    c.apply(200 + o1, e1, 2)
+                    c.apply(300 + o2, e2, 3)
+                    c.spl_mul(400 + o1 + o2, 200 + o1, 300 + o2)
+                    c.lin(E('Id'), 400 + o1 + o2)
+            cases.append(c)
+    return cases
+
+
+def gen_C07(seed, tier):
+    return gen_C06(seed + 7, tier, linear=True)
+
+
+def nontrivial_forms(t):
+    return t.split()[0] in ('Bilin', 'Lin')
+
+
+
+# ---------------------------------------------------------------------------
+# C01 — generator
+# ---------------------------------------------------------------------------
+def multiplicity_patterns(maxvals, maxlen, maxmult):
+    out = []
+    for nv in range(2, maxvals + 1):
+        for mults in itertools.product(range(1, maxmult + 1), repeat=nv):
+            if sum(mults) <= maxlen:
+                out.append(mults)
+    return out
+
+
+def spacing(rng, nv, fam):
+    return grid_points(rng, nv, fam)
+
+
+def gen_C01(seed, tier):
+    rng = random.Random(seed)
+    cases = []
+    maxp = 3 if tier == 'quick' else 5
+    pats = multiplicity_patterns(4, 8, 4 if tier == 'quick' else 5)
+    if tier == 'quick':
+        pats = rng.sample(pats, 40)
+    fams = ['unit', 'irregular', 'off+', 'off-']
+    for pi, mults in enumerate(pats):
+        fam = fams[pi % len(fams)] if tier == 'quick' else None
+        for fam in ([fam] if fam else fams):
+            vals = spacing(rng, len(mults), fam)
+            knots = [v for v, m in zip(vals, mults) for _ in range(m)]
+            tag = fam.replace('+', 'p').replace('-', 'm')
+            c = Case(f"C01_{pi}_{tag}")
+            c.grid_new(0, vals)
+            d0 = 10
+            for p in range(0, maxp + 1):
+                cnt = max(0, len(knots) - p - 1)
+                if p % 2 == 0:
+                    c.gen1(d0, p, knots)
+                else:
+                    c.gen2(d0, p, knots, 0)         # the supplied-grid route
+                for i in range(cnt):
+                    c.show(d0 + i)
+                d0 += cnt + 1
+            # evaluation at interior points and on knots
+            cases.append(c)
+    # random longer vectors, supplied grid that does not match, too few knots
+    for r in range(6 if tier == 'quick' else 40):
+        nv = rng.randint(2, 7)
+        vals = grid_points(rng, nv)
+        knots = [v for v in vals for _ in range(rng.choice([1, 1, 1, 2, 3]))][:14]
+        c = Case(f"C01r{r}")
+        c.grid_new(0, vals)
+        c.grid_new(1, vals[:-1] + [vals[-1] + 1])
+        p = rng.randint(0, maxp)
+        c.gen1(10, p, knots)
+        for i in range(max(0, len(knots) - p - 1)):
+            c.show(10 + i)
+            for x in [knots[0], (knots[0] + knots[-1]) / 2, knots[-1]]:
+                c.spl_eval(10 + i, x)
+        c.gen2(100, p, knots, 1)                     # mismatching supplied grid: refused
+        c.gen1(200, len(knots), knots)               # too few knots for this order
+        c.gen1(300, 1, [knots[0]] * 3)               # no two distinct values
+        c.gen1(320, 1, list(reversed(knots)))        # not non-decreasing
+        cases.append(c)
+    return cases
+
+
+def nontrivial_C01(t):
+    return t.split()[0] in ('Gen1', 'Gen2')
+
+
+# ---------------------------------------------------------------------------
+# C08 — differing grids
+# ---------------------------------------------------------------------------
+def grid_variants(rng, pts):
+    """ways a second grid can differ from pts"""
+    n = len(pts)
+    v = {}
+    q = list(pts); q[n // 2] = (pts[n // 2] + pts[n // 2 + 1]) / 2 if n // 2 + 1 < n else pts[n // 2] + 1
+    v['moved'] = q
+    v['extra_left'] = [pts[0] - 1] + list(pts)
+    v['extra_right'] = list(pts) + [pts[-1] + 1]
+    v['extra_inside'] = list(pts[:1]) + [(pts[0] + pts[1]) / 2] + list(pts[1:])
+    v['prefix'] = list(pts[:-1])
+    v['suffix'] = list(pts[1:])
+    q = list(pts); q[-1] = pts[-1] + Fr(1, 7)
+    v['agree_on_overlap'] = q          # differs only at the last point
+    return {k: g for k, g in v.items() if len(g) >= 2}
+
+
+def gen_C08(seed, tier):
+    rng = random.Random(seed)
+    cases = []
+    n = 5
+    reps = 1 if tier == 'quick' else 4
+    for rep in range(reps):
+        pts = grid_points(rng, n)
+        for kind, g2 in grid_variants(rng, pts).items():
+            c = Case(f"C08_{kind}_{rep}")
+            c.grid_new(0, pts)
+            c.grid_new(1, g2)
+            c.grid_new(2, pts)            # same points, distinct object
+            c.grid_eq(0, 1); c.grid_eq(0, 2)
+            n2 = len(g2)
+            placements = [((0, n), (0, n2)), ((0, 3), (0, 3)), ((1, 3), (0, 0)), ((0, 0), (0, 2)), ((0, 0), (0, 0)), ((1, 2), (1, 3))]
+            for pi, (wa, wb) in enumerate(placements):
+                wb = (wb[0], min(wb[1], n2))
+                if wb[0] >= wb[1]:
+                    wb = (0, 0)
+                oa, ob = rng.randint(0, 2), rng.randint(0, 2)
+                if ob > oa:
+                    oa, ob = ob, oa
+                a, b, b2 = 10 + 10 * pi, 11 + 10 * pi, 12 + 10 * pi
+                c.sup_new(1000 + a, 0, wa[0], wa[1]); c.spl_new(a, oa, 1000 + a, rand_coefs(rng, oa, nint(wa)))
+                c.sup_new(1000 + b, 1, wb[0], wb[1]); c.spl_new(b, ob, 1000 + b, rand_coefs(rng, ob, nint(wb)))
+                # the same second operand on the equal grid held in a distinct object: never refused
+                wb_eq = wb if wb[1] <= n else (0, 0)
+                c.sup_new(1000 + b2, 2, wb_eq[0], wb_eq[1]); c.spl_new(b2, ob, 1000 + b2, rand_coefs(rng, ob, nint(wb_eq)))
+                for second in (b, b2):
+                    c.spl_add(500 + max(oa, ob), a, second)
+                    c.spl_sub(500 + max(oa, ob), a, second)
+                    c.spl_mul(600 + oa + ob, a, second)
+                    c.spl_iadd(a, second)
+                    c.spl_isub(a, second)
+                    c.spl_overlap(a, second)
+                    c.bilin(E('Id'), E('Der', 1), a, second)
+                    c.bilin(E('Pos', 1), E('Id'), second, a)
+                    c.sup_union(700, 1000 + a, 1000 + second)
+                    c.sup_inter(701, 1000 + a, 1000 + second)
+                    c.sup_eq(1000 + a, 1000 + second)
+                    # operator with a spline factor on the other grid
+                    c.apply(800 + oa + ob, E('Spl', second), a)
+                    c.apply(820 + oa + ob + 1, E('Mul', E('Pos', 1), E('Spl', second)), a)
+                    c.lin(E('Spl', second), a)
+                    c.bilin(E('Spl', second), E('Id'), a, a)
+                    # operands are unchanged after a refusal
+                    c.show(a); c.show(second)
+                if oa == ob:
+                    c.spl_lincomb(900 + oa, [Fr(1), Fr(2)], [a, b])
+                    c.spl_lincomb(900 + oa, [Fr(1), Fr(2)], [a, b2])
+                    c.spl_lincomb(900 + oa, [Fr(1)], [a, b])          # count mismatch comes first
+            # generator with a supplied grid
+            c.gen2(950, 1, list(pts), 1)
+            c.gen2(960, 1, list(pts), 2)
+            cases.append(c)
+    return cases
+
+
+def nontrivial_C08(t):
+    return t.split()[0] in ('SplAdd', 'SplSub', 'SplMul', 'SplIAdd', 'SplISub', 'Bilin', 'Lin', 'Apply', 'SupUnion',
+                            'SupInter', 'SplLinComb', 'Gen2', 'SupEq', 'GridEq')
+
+
+# ---------------------------------------------------------------------------
+# C11 — validation (exact tier; NaN/Inf are covered by the double tier in floatcheck)
+# ---------------------------------------------------------------------------
+def gen_C11(seed, tier):
+    rng = random.Random(seed)
+    cases = []
+    # grids: every position of a defect in sequences of length <= 6 (quick: <= 5)
+    maxlen = 5 if tier == 'quick' else 6
+    c = Case("C11_grid")
+    slot = 0
+    for n in range(0, maxlen + 1):
+        base = grid_points(rng, max(n, 1))[:n]
+        c.grid_new(slot, base); slot += 1
+        for pos in range(n - 1):
+            dup = list(base); dup[pos + 1] = dup[pos]
+            c.grid_new(slot, dup); slot += 1
+            desc = list(base); desc[pos], desc[pos + 1] = desc[pos + 1], desc[pos]
+            c.grid_new(slot, desc); slot += 1
+            big = list(base); big[pos] = base[-1] + 5
+            c.grid_new(slot, big); slot += 1
+    cases.append(c)
+    # supports: every index pair on grids up to 5 points (+ extremes)
+    for n in range(2, 5 if tier == 'quick' else 6):
+        c = Case(f"C11_sup{n}")
+        c.grid_new(0, grid_points(rng, n))
+        probes = list(range(0, n + 3)) + [W64 - 1]
+        for a in probes:
+            for b in probes:
+                c.sup_new(1, 0, a, b)
+        cases.append(c)
+    # splines: every coefficient count against every window
+    for n in (3, 5):
+        for o in (0, 2):
+            c = Case(f"C11_spl{n}_{o}")
+            c.grid_new(0, grid_points(rng, n))
+            for wi, w in enumerate(windows(n)):
+                c.sup_new(10 + wi, 0, w[0], w[1])
+                for k in range(0, n + 1):
+                    c.spl_new(100, o, 10 + wi, rand_coefs(rng, o, k))
+            c.spl_empty(101, o, 0); c.show(101)
+            cases.append(c)
+    # generator: knots
+    c = Case("C11_gen")
+    vals = grid_points(rng, 4, 'unit')
+    c.grid_new(0, vals)
+    bad = [[], [vals[0]], [vals[0]] * 4, [vals[1], vals[0]], [vals[0], vals[1], vals[1], vals[0]],
+           [vals[0], vals[2], vals[1], vals[3]], list(vals) + [vals[0]]]
+    good = [list(vals), [vals[0], vals[0], vals[1], vals[2], vals[2], vals[3], vals[3]], [vals[0], vals[1]]]
+    d0 = 10
+    for ks in bad + good:
+        for p in (0, 1, 3):
+            c.gen1(d0, p, ks); d0 += max(0, len(ks) - p - 1) + 1
+            c.gen2(d0, p, ks, 0); d0 += max(0, len(ks) - p - 1) + 1
+    cases.append(c)
+    # linearCombination: counts
+    c = Case("C11_lc")
+    c.grid_new(0, vals)
+    for j in range(4):
+        mk_spline(c, rng, 10 + j, 0, 4, 1, supslot=1010 + j)
+    for nc in range(0, 5):
+        for ns in range(0, 5):
+            c.spl_lincomb(50, [Fr(i + 1) for i in range(nc)], [10 + j for j in range(ns)], order=1)
+    cases.append(c)
+    # interpolation: abscissae/ordinates counts, boundary derivative orders
+    c = Case("C11_interp")
+    g = grid_points(rng, 5)
+    c.grid_new(0, g)
+    for wi, w in enumerate(windows(5)):
+        c.sup_new(10 + wi, 0, w[0], w[1])
+        size = w[1] - w[0]
+        for ny in {0, 1, 2, size, size + 1}:
+            c.interp(100, 1, 10 + wi, [Fr(j) for j in range(ny)])
+            c.interp(102, 3, 10 + wi, [Fr(j * j) for j in range(ny)])
+        for dd in range(0, 5):
+            c.interp(102, 3, 10 + wi, [Fr(j) for j in range(size)], [('FIRST', dd, Fr(1)), ('LAST', 1, Fr(0))])
+            c.interp(102, 3, 10 + wi, [Fr(j) for j in range(size)], [('FIRST', 1, Fr(1)), ('LAST', dd, Fr(0))])
+    cases.append(c)
+    return cases
+
+
+def nontrivial_C11(t):
+    return t.split()[0] in ('GridNew', 'SupNew', 'SplNew', 'Gen1', 'Gen2', 'SplLinComb', 'Interp', 'InterpDefault')
+
+
+# ---------------------------------------------------------------------------
+# C12 — interpolation
+# ---------------------------------------------------------------------------
+def gen_C12(seed, tier):
+    rng = random.Random(seed)
+    cases = []
+    orders = [1, 2, 3, 4] if tier == 'quick' else [1, 2, 3, 4, 5]
+    for o in orders:
+        for r in range(4 if tier == 'quick' else 16):
+            n = rng.randint(2, 8)
+            c = Case(f"C12_{o}_{r}")
+            pts = grid_points(rng, n, rng.choice(['unit', 'irregular', 'tiny', 'off+']))
+            c.grid_new(0, pts)
+            w = rng.choice([w for w in windows(n) if w[1] - w[0] >= 2])
+            c.sup_new(1, 0, w[0], w[1])
+            size = w[1] - w[0]
+            y = [rand_coef(rng) for _ in range(size)]
+            c.interp(10, o, 1, y)                      # default boundaries
+            c.show(10)
+            for j in range(size):
+                c.spl_eval(10, pts[w[0] + j])
+            # user boundary sets: all node/derivative combinations (sampled)
+            for _ in range(2 if tier == 'quick' else 6):
+                bs = [(rng.choice(['FIRST', 'LAST']), rng.randint(1, o), rand_coef(rng)) for _ in range(o - 1)]
+                c.interp(11, o, 1, y, bs)
+                c.show(11)
+                # derivatives at the ends through the derivative operator
+                for dd in range(1, o + 1):
+                    c.apply(20 + dd, E('Der', dd), 11)
+                    c.spl_eval(20 + dd, pts[w[0]])
+                    c.spl_eval(20 + dd, pts[w[1] - 1])
+            cases.append(c)
+    return cases
+
+
+def nontrivial_C12(t):
+    return t.split()[0] in ('Interp', 'InterpDefault')
+
+
+# ---------------------------------------------------------------------------
+# C15 — predicates
+# ---------------------------------------------------------------------------
+def gen_C15(seed, tier):
+    rng = random.Random(seed)
+    cases = []
+    n = 5
+    pts = grid_points(rng, n)
+    ws = windows(n)
+    for o in ([1] if tier == 'quick' else [0, 1, 2]):
+        for ai, wa in enumerate(ws):
+            c = Case(f"C15_{o}_{ai}")
+            c.grid_new(0, pts)
+            c.grid_new(1, pts)
+            c.sup_new(1002, 0, wa[0], wa[1])
+            ca = rand_coefs(rng, o, nint(wa), zero_prob=0.4)
+            c.spl_new(2, o, 1002, ca)
+            c.spl_is_zero(2)
+            c.spl_new(4, o, 1002, [[Fr(0)] * (o + 1) for _ in range(nint(wa))])
+            c.spl_is_zero(4)
+            c.spl_copy(5, 2); c.spl_eq(2, 5); c.spl_eq(5, 2); c.spl_eq(2, 2)
+            for bi, wb in enumerate(ws):
+                c.sup_new(1003, 1, wb[0], wb[1])
+                same = (wa == wb and rng.random() < 0.7)
+                c.spl_new(3, o, 1003, ca if same else rand_coefs(rng, o, nint(wb), zero_prob=0.3))
+                c.spl_overlap(2, 3); c.spl_overlap(3, 2)
+                c.spl_eq(2, 3); c.spl_eq(3, 2)
+                c.spl_mul(6, 2, 3); c.show(6); c.spl_is_zero(6)
+            cases.append(c)
+    return cases
+
+
+def nontrivial_C15(t):
+    return t.split()[0] in ('SplIsZero', 'SplOverlap', 'SplEq')
+
+
+# ---------------------------------------------------------------------------
+# C10 / C14 / C09 — random histories over a pool of objects
+# ---------------------------------------------------------------------------
+def gen_history(rng, cid, length, show_every=True):
+    c = Case(cid)
+    n = rng.randint(3, 6)
+    pts = grid_points(rng, n)
+    c.grid_new(0, pts)
+    c.grid_new(1, pts)                                  # equal, distinct object
+    c.grid_new(2, grid_points(rng, rng.randint(2, 5)))   # a different grid
+    gsize = {0: n, 1: n, 2: len(c.lines[-1].split()) - 3}
+    sups = []       # support slots
+    spl = {}        # spline slot -> order
+    nxt = [10]
+
+    def fresh():
+        nxt[0] += 1
+        return nxt[0]
+
+    def new_spline(order=None, g=None):
+        g = g if g is not None else rng.choice([0, 0, 0, 1, 2])
+        o = order if order is not None else rng.randint(0, 3)
+        d = fresh()
+        ss = fresh()
+        w = rng.choice(windows(gsize[g]))
+        c.sup_new(ss, g, w[0], w[1]); sups.append(ss)
+        c.spl_new(d, o, ss, rand_coefs(rng, o, nint(w), zero_prob=0.15))
+        spl[d] = o
+        return d
+
+    for _ in range(3):
+        new_spline()
+
+    def pick(order=None, maxorder=None):
+        cands = [s for s, o in spl.items() if (order is None or o == order) and (maxorder is None or o <= maxorder)]
+        return rng.choice(cands) if cands else None
+
+    def dump():
+        if show_every:
+            for s in sorted(spl):
+                c.show(s)
+            for s in sups[-4:]:
+                c.show(s)
+
+    for step in range(length):
+        r = rng.random()
+        a = pick()
+        if r < 0.10:
+            new_spline()
+        elif r < 0.16:
+            d = fresh(); c.spl_copy(d, a); spl[d] = spl[a]
+        elif r < 0.22:
+            d = fresh(); c.spl_move(d, a); spl[d] = spl[a]
+        elif r < 0.28:
+            b = pick(order=spl[a])
+            c.spl_move_assign(a, b)                     # may be a self-move
+        elif r < 0.33:
+            b = pick(order=spl[a]); c.spl_copy(a, b)    # copy assignment (may be self)
+        elif r < 0.38:
+            lows = [s for s, o in spl.items() if o < spl[a]]
+            if lows:
+                c.spl_assign_up(a, rng.choice(lows))
+        elif r < 0.48:
+            b = pick()
+            k = rng.choice(['add', 'sub', 'mul'])
+            o = max(spl[a], spl[b]) if k != 'mul' else spl[a] + spl[b]
+            if o <= 8:
+                d = fresh()
+                getattr(c, 'spl_' + k)(d, a, b); spl[d] = o
+        elif r < 0.58:
+            b = pick(maxorder=spl[a])
+            (c.spl_iadd if rng.random() < 0.5 else c.spl_isub)(a, b)
+        elif r < 0.64:
+            (c.spl_imul if rng.random() < 0.6 else c.spl_idiv)(a, rand_scalar(rng))
+        elif r < 0.69:
+            d = fresh()
+            k = rng.random()
+            if k < 0.3: c.spl_scale(d, a, rand_scalar(rng, False))
+            elif k < 0.5: c.spl_scale_l(d, rand_scalar(rng, False), a)
+            elif k < 0.7: c.spl_div(d, a, rand_scalar(rng))
+            else: c.spl_neg(d, a)
+            spl[d] = spl[a]
+        elif r < 0.77:
+            facs = [s for s, o in spl.items() if o <= 1]
+            e = rand_expr(rng, 2, spline_slots=facs[:2])
+            o = e.out_ord(spl[a], lambda s: spl[s])
+            if o <= 8:
+                d = fresh(); c.apply(d, e, a); spl[d] = o
+        elif r < 0.82:
+            b = pick()
+            c.bilin(rand_expr(rng, 1), rand_expr(rng, 1), a, b)
+        elif r < 0.85:
+            c.lin(rand_expr(rng, 1), a)
+        elif r < 0.89:
+            c.spl_eval(a, pts[rng.randrange(n)] + Fr(rng.randint(-1, 1), 3)); c.spl_is_zero(a)
+            b = pick(order=spl[a]); c.spl_eq(a, b); c.spl_overlap(a, pick())
+        elif r < 0.92:
+            # failing constructions interleaved
+            c.sup_new(fresh(), 0, 3, 1)
+            ss = sups[-1] if sups else None
+            if ss:
+                c.spl_new(fresh(), 1, ss, rand_coefs(rng, 1, 7))
+            c.spl_front(a); c.spl_back(a)
+        elif r < 0.95:
+            ss = fresh(); c.spl_support(ss, a); sups.append(ss)
+            s2 = fresh(); c.sup_move(s2, ss); sups.append(s2)
+            if len(sups) >= 2:
+                c.sup_move_assign(sups[-1], sups[-2])
+        else:
+            same = [s for s, o in spl.items() if o == spl[a]]
+            k = rng.randint(1, min(4, len(same)))
+            d = fresh()
+            c.spl_lincomb(d, [rand_scalar(rng, False) for _ in range(k)], rng.sample(same, k)); spl[d] = spl[a]
+        dump()
+    return c
+
+
+def gen_C10(seed, tier, prefix="C10"):
+    rng = random.Random(seed)
+    k, length = (24, 25) if tier == 'quick' else (120, 60)
+    return [gen_history(rng, f"{prefix}_{i}", length) for i in range(k)]
+
+
+def gen_C14(seed, tier):
+    return gen_C10(seed + 14, tier, "C14")
+
+
+def gen_C09(seed, tier):
+    rng = random.Random(seed + 9)
+    k, length = (30, 30) if tier == 'quick' else (150, 60)
+    cases = [gen_history(rng, f"C09_{i}", length, show_every=False) for i in range(k)]
+    # placements of operand / factor / result supports for the spline operator (D1) and checked accessors
+    n = 5
+    pts = grid_points(rng, n)
+    for wi, wv in enumerate(windows(n)):
+        c = Case(f"C09f_{wi}")
+        c.grid_new(0, pts)
+        c.sup_new(1050, 0, wv[0], wv[1]); c.spl_new(50, 1, 1050, rand_coefs(rng, 1, nint(wv)))
+        for wa in windows(n):
+            c.sup_new(1060, 0, wa[0], wa[1]); c.spl_new(60, 2, 1060, rand_coefs(rng, 2, nint(wa)))
+            c.apply(70, E('Spl', 50), 60)
+            c.lin(E('Mul', E('Der', 1), E('Spl', 50)), 60)
+            c.bilin(E('Spl', 50), E('Id'), 60, 60)
+        for i in index_probes(n):
+            c.sup_at(1050, i); c.grid_at(0, i); c.sup_abs(1050, i); c.sup_rel(1050, i); c.sup_ivl(1050, i)
+        cases.append(c)
+    return cases
+
+
+def nontrivial_hist(t):
+    return t.split()[0] not in ('Show',)
+
+
 # ---------------------------------------------------------------------------
 # registry
 # ---------------------------------------------------------------------------
+def _p(gen, nontrivial, rule, variants=None, **kw):
+    return dict(gen=gen, nontrivial=nontrivial, level='proof', rule=rule,
+                variants=variants or {'quick': ['plain'], 'thorough': ['plain', 'asanchecks']}, **kw)
+
+
 PROPS = {
+    'C02': _p(gen_C02, lambda t: t.split()[0] in ('SplEval', 'SplFront', 'SplBack'),
+              "exhaustive: every window of grids with 2,3,5 (quick) / 2..6 (thorough) points x orders 0..2 / 0..3 with "
+              "discontinuous pieces, evaluated at every grid point, midpoint, third-point, both support ends +- 1/1000 and far "
+              "outside; plus random larger splines; non-trivial = distinct evaluation/front/back calls", exhaustive=True),
+    'C03': _p(gen_C03, nontrivial_C03,
+              "exhaustive: all ordered pairs of windows (empty, point-like, identical, nested, overlapping, touching, gap) on a "
+              "5- (quick) / 6-point (thorough) grid x 3 random / all 16 order pairs from (0..3)^2: + - * and the in-place forms, "
+              "every second right operand on a distinct-but-equal grid object; random: scalar forms, division, negation, "
+              "cross-order assignment, chains of in-place updates, linearCombination over 1..6 splines; non-trivial = distinct "
+              "arithmetic operations and operand constructions", exhaustive=True),
+    'C04': _p(gen_C04, nontrivial_C04,
+              "orders 0..3 (quick) / 0..4 x Derivative<n>, n = 0..order+2, Position<n>, n = 0..3/4, identity, on grids at the "
+              "origin, irregular, offset by +1000 and -1000, whole-grid, sub-window, point-like and empty supports; direct "
+              "transform calls on every interval; non-trivial = distinct Apply/Transform operations"),
+    'C05': _p(gen_C05, nontrivial_C05,
+              "expression catalogue covering every overload of CompoundOperators.h/ScalarOperators.h with scalars of the spline's "
+              "type and of type int, plus seeded random trees of depth <= 3 (10 quick / 120 thorough), x operand orders x "
+              "whole/sub/empty/point-like operand windows; spline-factor expressions with every placement of the factor's "
+              "window against the operand's window on a 5-point grid (exhaustive), factor on a distinct-but-equal grid object; "
+              "non-trivial = distinct Apply operations"),
+    'C06': _p(gen_C06, nontrivial_forms,
+              "operator pairs from a catalogue (incl. a spline factor) x order pairs x all ordered pairs of windows on a 5-point "
+              "grid (exhaustive placements), swapped evaluation and the scalar product for every pair; exact fractions; "
+              "non-trivial = distinct Bilin operations"),
+    'C07': _p(gen_C07, nontrivial_forms,
+              "every catalogue operator as a linear form on every window x orders; for every window pair the bilinear form and "
+              "the identity linear form of the product spline (O1 a)*(O2 b), computed independently on both sides"),
+    'C01': _p(gen_C01, nontrivial_C01,
+              "knot vectors: multiplicity patterns over <= 4 distinct values, total length <= 8, multiplicities up to 4 (quick: 40 "
+              "sampled; thorough: all, multiplicities up to 5) x spacing families (unit, irregular, offset +-1000), orders 0..3 / "
+              "0..5, both construction routes alternating; random vectors up to 14 knots; refusals (mismatching grid, too few "
+              "knots, constant, descending); every generated spline compared coefficient by coefficient"),
+    'C08': _p(gen_C08, nontrivial_C08,
+              "every multi-spline entry point (+ - * += -= checkOverlap linearCombination bilinear union intersection ==, "
+              "operators and forms with a spline factor, generator with supplied grid) x 7 ways two grids differ (point moved, "
+              "extra point left/right/inside, prefix, suffix, differing only outside the overlap) x 6 support placements incl. "
+              "empty arguments, each also with the equal grid held in a distinct object; operands re-dumped after each refusal"),
+    'C10': _p(gen_C10, nontrivial_hist,
+              "random histories (24 x 25 steps quick, 120 x 60 thorough) over a pool of splines/supports on three grids (two equal, "
+              "one different): construction, copy, move, copy-/move-assignment incl. self, cross-order assignment, arithmetic, "
+              "in-place forms, operator application, forms, predicates, failing calls, linearCombination; the full state of every "
+              "live spline is compared after every step; built with the library's own self-checks (BSPLINE_ADD_TEST_CHECKS)",
+              variants={'quick': ['checks'], 'thorough': ['checks', 'asanchecks']}),
+    'C14': _p(gen_C14, nontrivial_hist,
+              "as C10 with a different seed: the C++ state of every live object (grid points, window, coefficients) is compared "
+              "with the model after every step, so a disturbed operand shows as a difference in a slot the model proves untouched",
+              variants={'quick': ['plain'], 'thorough': ['plain', 'asan']}),
+    'C09': _p(gen_C09, nontrivial_hist,
+              "random histories and every placement of factor window against operand window for the spline operator, plus checked "
+              "accessors at extreme indices, all executed under AddressSanitizer + UndefinedBehaviorSanitizer + libstdc++ "
+              "assertions; a sanitizer report on an input for which the model returns Ok/Throw is a violation",
+              variants={'quick': ['asan'], 'thorough': ['asan', 'asanchecks']}),
+    'C11': _p(gen_C11, nontrivial_C11,
+              "grids: duplicate/descent/outlier at every position of sequences of length 0..5 (quick) / 0..6; supports: every index "
+              "pair from 0..n+2 and 2^64-1 on grids of 2..4 / 2..5 points; splines: every coefficient count against every window; "
+              "generator: empty, single, constant, descending, non-monotone and valid knot vectors x orders x both routes; "
+              "linearCombination: every count pair 0..4; interpolation: count mismatches and boundary derivative orders 0..4", exhaustive=True),
+    'C12': _p(gen_C12, nontrivial_C12,
+              "interpolate<Arch, order, exact recording solver>: orders 1..4 (quick) / 1..5, 2..8 nodes as windows of a larger grid, "
+              "uniform / irregular / tiny / offset spacing, default and random user boundary sets; the assembled dense system M, b is "
+              "compared entry by entry with the model's rows, the resulting spline coefficient by coefficient, values at the nodes "
+              "and end-point derivatives through Apply(Der d) + evaluation"),
+    'C15': _p(gen_C15, nontrivial_C15,
+              "all ordered pairs of windows on a 5-point grid (second operand on a distinct-but-equal grid object), coefficient "
+              "patterns with zero pieces (probability 0.3-0.4), identical coefficients on identical windows: isZero, checkOverlap both "
+              "ways, ==/!= both ways, copy equality, product and its isZero", exhaustive=True),
     'C13': dict(
         gen=gen_C13, nontrivial=nontrivial_C13, level='proof', exhaustive=True,
         rule="exhaustive: every window of grids with 2..5 (quick) / 2..6 (thorough) points; every ordered pair (union, "
